@@ -69,6 +69,7 @@ type VC struct {
 	depth    int
 	stack    []*ssa.Function
 	entry    *State
+	entryAtLock bool
 	entryAlloc string
 	rootMods []Loc
 	rootModsAll bool // function may modify anything (no frame checking): only for `noframe`
